@@ -6,8 +6,8 @@ sys.path.insert(0, os.path.join(ROOT, "lib"))
 import propcfg
 
 LEVEL = {
- "C01": ("Machine-checked theorems over the final Gallina models. (1) Entry points: Issuer::encode (disclosure fold on string paths with random insertion positions, decoys when requested, shuffle of the top-level digest list, _sd_alg, cnf, signing, '~' serialisation) followed by Holder::verify (split, JWT decode, _sd_alg check, complete restore_disclosures with pass loop, duplicate and structure checks, removal of bookkeeping): for every claims object, every non-empty path list on which marking succeeds, distinct salts, any positions, fresh distinct decoys, any shuffle permutation, with or without holder key, encode succeeds and Holder::verify returns the issuer's header and exactly the original claims (+cnf). (2) The same for the fold + restore alone on arbitrary (non-object) claims. Tied to /repo by a differential run in which the model must reproduce the library's token exactly from the read-back random choices and agree with Holder::verify, with the oracle claims == original (+cnf) and paths == marked paths.",
-         "partial: 'valid marking => marking succeeds' and the path component (one path per marked claim, in the theorem only membership/structure via restore_full_spec) are carried by the correspondence run and its oracle; premises: injective hash, decode inverts encode, '~'-free base64url/JWT, the JWT layer returns what was signed (idealised primitives, stated as hypotheses, no axioms)"),
+ "C01": ("Machine-checked theorems over the final Gallina models. (1) Entry points: Issuer::encode (disclosure fold on string paths with random insertion positions, decoys when requested, shuffle of the top-level digest list, _sd_alg, cnf, signing, '~' serialisation) followed by Holder::verify (split, JWT decode, _sd_alg check, complete restore_disclosures with pass loop, duplicate and structure checks, removal of bookkeeping): for every claims object, every non-empty path list on which marking succeeds, distinct salts, any positions, fresh distinct decoys, any shuffle permutation, with or without holder key, encode succeeds and Holder::verify returns the issuer's header and exactly the original claims (+cnf). (2) Every valid marking (paths resolve, descendants before ancestors, no repeats) is accepted (C14_valid_marking_accepted). (3) The same round trip for the fold + restore alone on arbitrary (non-object) claims. Tied to /repo by a differential run in which the model must reproduce the library's token exactly from the read-back random choices and agree with Holder::verify, with the oracle claims == original (+cnf) and paths == marked paths.",
+         "partial: the path component (one path per marked claim, in the theorem only membership/structure via restore_full_spec) are carried by the correspondence run and its oracle; premises: injective hash, decode inverts encode, '~'-free base64url/JWT, the JWT layer returns what was signed (idealised primitives, stated as hypotheses, no axioms)"),
  "C02": ("Machine-checked theorems about the Gallina model of Holder::redact/build: redacting a non-disclosable path changes nothing, the result depends on the set of redactions only, every disclosure that is neither redacted nor below a redacted disclosable claim is presented; tied to /repo by a differential run (library- and reference-issued tokens, bound and unbound) in which the model must reproduce the presentation string and the verifier's claims must equal the original minus the withheld claims.",
          "partial: the end-to-end equation verifier(build(redact R)) = project is exercised by the correspondence run; the theorems are about the holder's selection; composition with the restore theorems (C03) is pending"),
  "C04": ("Machine-checked exact characterisation (iff) of when the Gallina model of decode accepts (parse, configured algorithm, key family table, signature oracle, object payload, claim checks), the corollary that under an ideal signature oracle only the exact issued token, the configured algorithm and a key of the right family are accepted, and that holder and verifier fail whenever the first segment does not decode; tied to /repo by a differential run over all 13 algorithms with per-position mutations, the full key x algorithm matrix and algorithm-confusion tokens.",
@@ -30,8 +30,8 @@ LEVEL = {
          "partial: serde serialisation and base64/JSON printing of the header are oracles"),
  "C13": ("Machine-checked structure theorems over the issuer model: each disclosure consumes exactly its own salt draw, distinct draws give pairwise distinct disclosure strings and digests (also for identical claims), a new digest enters its list at the drawn position, decoys are exactly the drawn decoy digests appended to the top-level list, which is then permuted by the shuffle draw; tied to /repo by replaying real tokens from read-back draws and by the long issuance history the property describes (statistical support for the premises).",
          "partial: that thread_rng draws are distinct, unpredictable and uniform is runtime behaviour no Gallina model exhibits; the history run is support, not proof"),
- "C14": ("Machine-checked theorems about the Gallina model of Issuer::encode: it never panics for any claims object, any path strings, any decoy maximum and any random draws; an unresolvable path of each kind is an error at its step, and an error at any position of the list fails the whole call. Tied to /repo by a differential run in which the model must reproduce the produced token exactly from the read-back random choices, over valid markings (also only-nested ones), invalid path lists, decoy maxima in [-3,50] and repeated encode() calls.",
-         "partial: 'valid marking => Ok' is exercised by the correspondence run (theorem pending the port of the issuer fold proofs); the clock and RNG are oracles"),
+ "C14": ("Machine-checked theorems about the Gallina model of Issuer::encode: it never panics for any claims object, any path strings, any decoy maximum and any random draws; an unresolvable path of each kind is an error at its step, and an error at any position of the list fails the whole call; every marking whose paths resolve in the claims and are listed descendants-before-ancestors without repeats (also only-nested and only-array ones) is accepted by the fold, and encode then succeeds and round-trips (C14_valid_marking_accepted / _issues, by an invariant over the annotated tree: marking one node keeps every path resolvable that does not lead to or through it). Tied to /repo by a differential run in which the model must reproduce the produced token exactly from the read-back random choices, over valid markings (also only-nested ones), invalid path lists, decoy maxima in [-3,50] and repeated encode() calls.",
+         "partial: repeatability (k encode() calls on one Issuer) and the exp clock are carried by the correspondence run (clock and RNG are oracles of the model); the round-trip half of 'valid => Ok' carries C01's premises (fresh decoys, depth <= 128)"),
  "C10": ("Machine-checked totality theorems (never Panic, for every string) about a Gallina model of the splitters that mirrors each Rust slice/index operation with a checked primitive; the model is tied to /repo by an exhaustive differential run over all strings on {a . ~} up to a length bound. Proof is the right level because panic-freedom is a universal statement over strings.",
          "partial: panics, aborts and non-termination inside serde_json, base64, jwt-rustcrypto and stack exhaustion are runtime behaviour of code the model treats as oracles"),
  "C11": ("Machine-checked theorems over the Gallina model of Validation: each builder step changes only the setting it names and sets it to its argument (all policies, all arguments), steps naming different settings commute, build_validation forwards every setting, and validate accepts iff every configured constraint holds (exp/nbf with leeway, aud string/array, iss, sub, required claims); tied to /repo by an exhaustive run over every transition of the builder closure and single-violation tokens for sampled/all reachable policies.",
